@@ -31,6 +31,9 @@ fn nt_c06(_p: &Plan, o: &RunOut) -> bool {
 fn nt_c07(p: &Plan, o: &RunOut) -> bool {
     o.probes.frames_first >= 20 && (o.probes.events.get("disconnected").copied().unwrap_or(0) >= 1 || !p.api.is_empty())
 }
+fn nt_c08(p: &Plan, o: &RunOut) -> bool {
+    !matches!(p.mode, crate::plan::Mode::Net) || o.counters.injected >= 5
+}
 fn nt_c12(_p: &Plan, o: &RunOut) -> bool {
     o.probes.events.get("synchronized").copied().unwrap_or(0) >= 1 && (faults_fired(o) >= 1 || o.counters.injected >= 1)
 }
@@ -125,6 +128,18 @@ PropSpec {
     twin: None,
 },
 PropSpec {
+    id: "C08",
+    level: "fault_enumeration",
+    quick_runs: 0,
+    thorough_runs: 0,
+    default_seed: 808,
+    rule: "the fault is a forged or corrupted packet. (b) enumerated: every byte string of length <= 2 (quick; <= 3 thorough, 16 843 009 strings) and seeded chunks of the 3-byte space as Input payload against three references, plus 1 M (quick) / 10 M (thorough) structure-aware mutations of real payloads (bit flips, truncation, insertion, spliced long varints), each decoded by the real codec under a panic trap and a counting allocator (payloads whose container declares > 512 MiB go to a child process). (a) live: 10-60 injections per run into runs of C01's space and into two-peer runs with a death, at seeded instants from the first handshake packet on: real Input packets replayed with a wrong number of statuses, a negative start frame, random / enumerated / bit-flipped / truncated / wrong-size payloads; any message kind with a wrong magic after the handshake; any message kind and raw garbage from unknown addresses. Oracles: no panic, no allocation > 16 MiB, C01's timeline check, twin run without the injections: identical sealed timelines, identical Synchronized/Disconnected/DesyncDetected events, same progress. Non-trivial = a sweep chunk, or a live run in which >= 5 forged datagrams were delivered; distinct = distinct executed-schedule hash",
+    nontrivial: nt_c08,
+    required_probes: &["payloads_decoded", "injected_datagrams", "twin_runs", "undecodable_datagrams", "forged_from_known_address", "forged_from_unknown_address"],
+    assumptions: &["a forged packet with the right address, the right magic and a well-formed envelope may refresh keep-alive timers; equality with the twin is demanded on inputs, states and connection events, not on timer-driven retransmission instants", "wrong-magic packets are injected only after the handshake with that address completed (before that the endpoint cannot know the right magic)"],
+    twin: Some(crate::twins::c08_twin),
+},
+PropSpec {
     id: "C12",
     level: "exploration",
     quick_runs: 20_000,
@@ -153,6 +168,7 @@ PropSpec {
 pub fn runs(spec: &PropSpec, tier: &str) -> u64 {
     match spec.id {
         "C05" => crate::scenarios::c05_runs(tier),
+        "C08" => crate::scenarios::c08_runs(tier),
         _ => {
             if tier == "thorough" {
                 spec.thorough_runs
